@@ -3,6 +3,7 @@
 //       [--shapes file] [--replay-dir dir] [--selfcheck K]      batch of seeded runs
 //   sim --replay file [--verbose]                                re-execute one replay file
 //   sim --print-plan --prop <id> --seed S --index i              show a generated plan
+#include <unistd.h>
 #include <chrono>
 #include <cstdio>
 #include <cstdlib>
@@ -121,7 +122,17 @@ static int do_replay(const std::string& path, bool verbose, bool observe)
     return out.viol.empty() ? 0 : 1;
 }
 
+static int real_main(int argc, char** argv);
 int main(int argc, char** argv)
+{
+    // leave through _exit: the sanitizer runtimes otherwise replace the exit status when they have reported something
+    const int rc = real_main(argc, argv);
+    std::fflush(stdout);
+    std::fflush(stderr);
+    _exit(rc);
+}
+
+static int real_main(int argc, char** argv)
 {
     std::setvbuf(stdout, nullptr, _IOLBF, 1 << 16);
     if (flag(argc, argv, "--replay") || !arg(argc, argv, "--replay", "").empty())
@@ -161,8 +172,16 @@ int main(int argc, char** argv)
     if (!hashes_path.empty()) hashes.open(hashes_path);
     long executed = 0, nviol = 0, nontrivial = 0, engine_errors = 0, evaluations = 0;
     Json samples = Json::array();
+    const long max_reports = std::atol(arg(argc, argv, "--max-reports", "6").c_str());
+    bool stopped_early = false;
     for (long idx = worker; idx < runs; idx += nworkers)
     {
+        if (nviol >= max_reports)
+        {
+            // a failing batch does not need every failing run: stop once enough violations are minimised and reported
+            stopped_early = true;
+            break;
+        }
         if (seconds > 0 && std::chrono::duration<double>(std::chrono::steady_clock::now() - t0).count() > seconds) break;
         const uint64_t rs = run_seed_of(seed, (uint64_t) idx);
         go.index = idx;
@@ -225,7 +244,7 @@ int main(int argc, char** argv)
                         for (auto& kv : v.params.o) failing.params.set(kv.first, kv.second);
                         break;
                     }
-                Plan small = no_shrink ? failing : shrink_plan(failing, cls, ro, 300, &used);
+                Plan small = (no_shrink || nviol >= 2) ? failing : shrink_plan(failing, cls, ro, 200, &used);
                 RunOutput sout = run_plan(small, ro);
                 if (!sout.has_class(cls)) { small = failing; sout = run_plan(failing, ro); }
                 if (!sout.has_class(cls)) { small = p; sout = out; }
@@ -249,7 +268,7 @@ int main(int argc, char** argv)
     }
     Json sum = Json::object();
     sum.set("type", "summary").set("prop", prop).set("worker", worker).set("executed", executed).set("evaluations", evaluations).set("nontrivial", nontrivial);
-    sum.set("distinct_shapes", (long) shapes.size()).set("violations", nviol).set("engine_errors", engine_errors);
+    sum.set("stopped_early", stopped_early).set("distinct_shapes", (long) shapes.size()).set("violations", nviol).set("engine_errors", engine_errors);
     sum.set("wall_s", std::chrono::duration<double>(std::chrono::steady_clock::now() - t0).count());
     sum.set("stats", total.to_json()).set("samples", samples);
     std::printf("%s\n", sum.dump().c_str());
